@@ -1131,8 +1131,8 @@ def splice_fn(fs, stats, canary=False, stub=False):
         inserts.append((code[body_open + bo].start, "\n" + ltext.rstrip() + "\n", "loop %d" % n))
         # with loop_isolation(false) the loop body is part of the function's own query, where the function-start canary
         # has already been assumed: a loop canary there cannot fire and is not generated
-        if canary and "loop_isolation(false)" not in fs.opts.get("attrs", ""):
-            inserts.append((code[body_open + bo].end, "\nproof { assert(false); } // CANARY loop %d\n" % n, "canary"))
+        if canary and "loop_isolation(false)" not in fs.opts.get("attrs", "") and "loop_isolation(false)" not in ltext:
+            inserts.append((code[body_open + bo].end, "\nproof { assert(false); } // CANARY loop %d\n" % n, "canary@%d" % code[body_open + kw].start))
     for n in range(1, len(loops) + 1):
         pass
     if stub:
@@ -1166,6 +1166,11 @@ def splice_fn(fs, stats, canary=False, stub=False):
         j = hits[n - 1]
         pos = code[j].start if where == "before" else code[j + len(pat) - 1].end
         inserts.append((pos, "\n" + ptext.rstrip() + "\n", "%s `%s`" % (where, stmt)))
+    # a proof hint placed directly before a loop may carry `#[verifier::loop_isolation(false)]` for that loop: no canary there
+    # either (same reason as above)
+    noiso = set(p for (p, t, w) in inserts if "loop_isolation(false)" in t)
+    inserts = [((p, t, "canary") if w.startswith("canary@") else (p, t, w)) for (p, t, w) in inserts
+               if not (w.startswith("canary@") and int(w[7:]) in noiso)]
     # --- build segment list
     events = [(s, e, r, None) for (s, e, r) in spans] + [(p, p, t, w) for (p, t, w) in inserts]
     events.sort(key=lambda x: (x[0], x[1]))
